@@ -402,6 +402,17 @@ func (sw *segWriter) finish() {
 	}
 }
 
+// writeSegmented writes an un-enveloped body the way the script's write mode says (split, byte-wise, with empty
+// writes and Flush calls, ...).
+func writeSegmented(w http.ResponseWriter, b []byte, s *respScript) {
+	sw := &segWriter{w: w, mode: s.writeMode, splitAt: s.splitAt}
+	if s.writeMode == wmFrame && s.splitAt > 0 {
+		sw.mode = wmSplit
+	}
+	sw.write(b)
+	sw.finish()
+}
+
 func writeSplit(w http.ResponseWriter, b []byte, splitAt int) {
 	sw := &segWriter{w: w, mode: wmSplit, splitAt: splitAt}
 	sw.write(b)
@@ -822,7 +833,7 @@ func (b *pipeBackend) serveUnary(w http.ResponseWriter, s *respScript) {
 			h.Set("Content-Length", strconv.Itoa(len(body)))
 		}
 		w.WriteHeader(st)
-		writeSplit(w, body, s.splitAt)
+		writeSegmented(w, body, s)
 		return
 	}
 	h.Set("Content-Type", "application/"+b.codec)
